@@ -101,7 +101,7 @@ func VerifH_C08_SkippingIndexNeverHidesAMatchingRow_StringTag() { c08SkippingCas
 // bloom filter, dictionary or min/max -> real tagFamilyFilters.unmarshal, exactly as
 // partIter.findBlock does), never rules out a block that holds a row satisfying the condition,
 // and never fails or panics.
-// bound: tag of type string array; block of 1..2 rows, arrays of 1..2 items of 1 arbitrary byte (thorough: 1..2 bytes in single-row blocks); condition HAVING | NOT HAVING with 1..2 literals drawn from {"a","7","bc"}; the block as first written or as a merge rewrites it (values only); the bloom filter is its contract (no false negatives, arbitrary false positives)
+// bound: tag of type string array; block of 1..2 rows, arrays of 1..2 items of 1 arbitrary byte (1..2 bytes in single-row blocks); condition HAVING | NOT HAVING with 1..2 literals drawn from {"a","7","bc"}; the block as first written or as a merge rewrites it (values only); the bloom filter is its contract (no false negatives, arbitrary false positives)
 // outside: AND/OR trees of conditions, null tag values
 func VerifH_C08_SkippingIndexNeverHidesAMatchingRow_StringArrayTag() { c08SkippingCase(2) }
 
@@ -205,7 +205,7 @@ func c08SkippingCase(kind int) { // 0 int, 1 string, 2 string array, 3 int array
 				ivals = append(ivals, zzverif.Int64("value"))
 			} else {
 				ln := 1
-				if kind == 1 || (zzverif.Thorough() && rows == 1) {
+				if kind == 1 || rows == 1 {
 					ln = 1 + c08Pick("len", 2)
 				}
 				svals = append(svals, string(zzverif.Bytes("value", ln)))
